@@ -4,7 +4,9 @@ from vf.core import Suite, coq_list
 from vf.gen import pick_weighted
 
 ID = "C16"
-THEOREMS = ["C16_placeholder"]
+THEOREMS = ["C16_cas_linearizable", "C16_mutex", "C16_cas_exact", "C16_symbolic_cas_refuted",
+            "C16_reader_atomic_refuted", "C16_reader_notfound_refuted", "C16_reader_atomic_partial",
+            "C16_pack_race_refuted", "C16_uncond_set_refuted", "C16_uncond_set_garbage"]
 MODEL_FILES = ["RefCAS.v"]
 MODELLED = ("storage/filesystem/dotgit/dotgit_setref.go: setRefRwfs; dotgit.go: checkReferenceAndTruncate, readReferenceFrom, "
             "Ref/readReferenceFile, packedRef/findPackedRefs, PackRefs (one reference name), as a small-step interleaving "
